@@ -150,6 +150,9 @@ func c19RunScenario(sc c19Scenario) c19ChildOut {
 	go func() {
 		defer close(done)
 		pool := gpool.NewPool(sc.W, sc.Q)
+		if cap(pool.JobQueue) != sc.Q || cap(pool.WorkerQueue) != sc.W {
+			fail("C19/queue-capacity", fmt.Sprintf("NewPool(%d, %d) made a JobQueue of capacity %d and a WorkerQueue of capacity %d", sc.W, sc.Q, cap(pool.JobQueue), cap(pool.WorkerQueue)))
+		}
 		quit := make(chan struct{})
 		var subWG sync.WaitGroup
 		var submitted int32
@@ -209,10 +212,10 @@ func c19RunScenario(sc c19Scenario) c19ChildOut {
 			phase.Store("jobs")
 			ed := make(chan struct{})
 			go func() { ended.Wait(); close(ed) }()
+			out.Complete = true // every send has returned and nothing was released: every job has to run (a time-out here is confirmed three times)
 			if !waitCh(ed, "all-jobs-finished") {
 				return
 			}
-			out.Complete = true
 			phase.Store("release")
 			if !waitCh(release(), "release-return-on-idle-pool") {
 				return
@@ -288,6 +291,17 @@ func c19RunScenario(sc c19Scenario) c19ChildOut {
 				return
 			}
 		}
+		// Release has returned: every worker and the dispatcher must be gone (they return right after their last hand-shake)
+		phase.Store("workers-stopped")
+		t1 := time.Now()
+		left := c19PoolGoroutines()
+		for left > 0 && time.Since(t1) < c19Slack {
+			time.Sleep(time.Millisecond)
+			left = c19PoolGoroutines()
+		}
+		if left > 0 {
+			fail("C19/hang/worker-not-stopped", fmt.Sprintf("%d goroutine(s) of the pool (workers / dispatcher) still exist %v after Release returned (W=%d Q=%d mode=%s)", left, c19Slack, sc.W, sc.Q, sc.Mode))
+		}
 		// anything that starts after Release returned shows up behind release-return in the trace
 		phase.Store("settle")
 		time.Sleep(3 * time.Millisecond)
@@ -305,6 +319,26 @@ func c19RunScenario(sc c19Scenario) c19ChildOut {
 	out.Note = fmt.Sprint(phase.Load())
 	out.Fails = append(out.Fails, c19Monitor(sc, out.Trace, out.Complete, out.HighWater)...)
 	return out
+}
+
+// c19PoolGoroutines counts the goroutines that are inside the pool's worker loop or its dispatcher.
+func c19PoolGoroutines() int {
+	buf := make([]byte, 1<<20)
+	for {
+		n := runtime.Stack(buf, true)
+		if n < len(buf) {
+			buf = buf[:n]
+			break
+		}
+		buf = make([]byte, 2*len(buf))
+	}
+	cnt := 0
+	for _, g := range strings.Split(string(buf), "\n\n") {
+		if strings.Contains(g, "gpool.(*Worker).Start.func1") || strings.Contains(g, "gpool.(*Pool).dispatch") {
+			cnt++
+		}
+	}
+	return cnt
 }
 
 // c19Monitor checks the property directly on a recorded trace (L3).
@@ -426,12 +460,18 @@ func c19Child(sc c19Scenario) (c19ChildOut, string) {
 	return out, ""
 }
 
+var c19ConfirmedHangs int32
+
 func c19IsTiming(sig string) bool {
 	return strings.HasPrefix(sig, "C19/hang/") || sig == "C19/submit-blocked-with-room" || sig == "C19/child"
 }
 
 // c19Run runs one scenario; a failure that depends on a time limit counts only when it reproduces three times in a row.
 func c19Run(c *c19Case) []Failure {
+	if atomic.LoadInt32(&c19ConfirmedHangs) >= 3 {
+		c.Note = "not run: three scenarios already hang reproducibly (the verdict is a violation anyway)"
+		return nil
+	}
 	for attempt := 0; ; attempt++ {
 		out, cerr := c19Child(c.Sc)
 		if cerr != "" {
@@ -454,6 +494,9 @@ func c19Run(c *c19Case) []Failure {
 			continue
 		}
 		c.Trace, c.Complete, c.HighWater, c.Note = out.Trace, out.Complete, out.HighWater, out.Note
+		if timing {
+			atomic.AddInt32(&c19ConfirmedHangs, 1)
+		}
 		return out.Fails
 	}
 }
@@ -497,7 +540,7 @@ func c19Gen(tier string, rng *rand.Rand) []c19Case {
 			}
 		}
 	}
-	extra := 40
+	extra := 200
 	if tier == "thorough" {
 		extra = 900
 	}
